@@ -28,12 +28,12 @@ Add Field AFld5 : (fl_field A FL).
 Notation inv := (fl_inv A FL).
 
 (* product of f 0 .. f (n-1), in the order of the loop of det *)
-Fixpoint pprod (n : nat) (f : nat -> T) : T :=
-  match n with 0 => one | S m => mul (pprod m f) (f m) end.
+Fixpoint pivprod (n : nat) (f : nat -> T) : T :=
+  match n with 0 => one | S m => mul (pivprod m f) (f m) end.
 
-Lemma pprod_ext n (f g : nat -> T) : (forall i, i < n -> f i = g i) -> pprod n f = pprod n g.
+Lemma pivprod_ext n (f g : nat -> T) : (forall i, i < n -> f i = g i) -> pivprod n f = pivprod n g.
 Proof.
-  induction n as [|n IH]; intros H; [reflexivity|]. cbn [pprod]. rewrite IH by (intros; apply H; lia).
+  induction n as [|n IH]; intros H; [reflexivity|]. cbn [pivprod]. rewrite IH by (intros; apply H; lia).
   now rewrite H by lia.
 Qed.
 
@@ -45,15 +45,15 @@ Definition full (au : matrix) (mm m1 k i j : nat) : T :=
 Lemma det_loop_value n mm (au : matrix) (d dd : T) :
   cols au = mm ->
   for_ 0 n (fun i dd => let* a := mget au i 0 in Ok (mul dd a)) d = Ok dd ->
-  dd = mul d (pprod n (fun i => mat_at au mm i 0)).
+  dd = mul d (pivprod n (fun i => mat_at au mm i 0)).
 Proof.
   intros Hc H.
-  refine (for_inv_partial (fun k (x : T) => x = mul d (pprod k (fun i => mat_at au mm i 0)))
+  refine (for_inv_partial (fun k (x : T) => x = mul d (pivprod k (fun i => mat_at au mm i 0)))
             0 n _ d dd (Nat.le_0_l _) _ _ H).
   - cbn. ring.
   - intros k x x1 Hk -> E. apply bind_ok in E as (a & Ea & E).
     apply (mget_Ok_inv _ mm) in Ea as (-> & _); auto.
-    injection E as <-. cbn [pprod]. ring.
+    injection E as <-. cbn [pivprod]. ring.
 Qed.
 
 (* ---- the sign variable and the exchange index of one stage ---- *)
@@ -205,7 +205,7 @@ Hypothesis Det_stage : forall (f : nat -> nat -> T) (k p : nat) (m : nat -> T),
   k < bn B -> p < bn B -> k <= p -> (forall i, i <= k -> m i = zero) ->
   Det (fun i j => sub (f (swp k p i) j) (mul (m i) (f p j))) = if p =? k then Det f else neg (Det f).
 Hypothesis Det_upper : forall f : nat -> nat -> T,
-  (forall i j, i < bn B -> j < i -> f i j = zero) -> Det f = pprod (bn B) (fun i => f i i).
+  (forall i j, i < bn B -> j < i -> f i j = zero) -> Det f = pivprod (bn B) (fun i => f i i).
 
 Notation n := (bn B).
 
@@ -293,7 +293,7 @@ Proof.
   2:{ intros i j Hi Hj. symmetry. now apply full_init. }
   transitivity (mul one (Det (full au0 mm m1 0))); [|ring].
   rewrite Hall. f_equal. rewrite (Det_upper (full auN' mm m1 n)).
-  - apply pprod_ext. intros i Hi. symmetry. now apply (full_final n mm m1 auN' i i).
+  - apply pivprod_ext. intros i Hi. symmetry. now apply (full_final n mm m1 auN' i i).
   - intros i j Hi Hji. now apply (full_final n mm m1 auN' i j).
 Qed.
 
